@@ -339,6 +339,10 @@ func c12ScenariosRule(c *Ctx, rid string, only func(fn, rule string) bool) {
 				}
 			}
 		}
+		if verdict == "?" && res == nil {
+			r.Undec(rid, key, pos, "the validator's evaluation on the concrete scenario produced no result (aborted at "+run.Aborted+")")
+			continue
+		}
 		if verdict == "?" {
 			r.Undec(rid, key, pos, fmt.Sprintf("the validator's result on the concrete scenario is not a concrete value (%T %s)", res, res.key()))
 			continue
